@@ -86,6 +86,25 @@ pub fn text_frontend(data: &[u8]) {
     report(judge_text(p, text, tail));
 }
 
+/// Structure-aware text target: the bytes are decoded into the raw value of the proptest text generators
+/// (family, grammar, decorations, token edits, injected static violations, layouts), rendered, and judged
+/// like any other text. Coverage guidance then works on the generator's decisions instead of on characters.
+pub fn judge_raw(p: &str, data: &[u8]) -> Result<(), Failure> {
+    let (body, tail) = if data.len() > 8 { data.split_at(data.len() - 8) } else { (data, &[][..]) };
+    let mut b = Bytes::new(body);
+    let families: &[u8] = match p {
+        "C10" | "C12" | "C13" | "C15" => &[0],
+        _ => &[0, 0, 0, 1, 2, 3, 4, 5, 6, 7],
+    };
+    let raw = total::RawAny::from_bytes(&mut b, families);
+    let (text, _) = total::any_text(&raw);
+    judge_text(p, &text, tail)
+}
+
+pub fn raw_struct(data: &[u8]) {
+    report(judge_raw(prop(), data));
+}
+
 pub fn judge_grammar(p: &str, data: &[u8]) -> Result<(), Failure> {
     let mut b = Bytes::new(data);
     let raw = RawGrammar::from_bytes(&mut b);
@@ -148,6 +167,7 @@ pub fn judge_artifact(target: &str, p: &str, data: &[u8]) -> Result<(), Failure>
             }
         }
         "grammar_struct" => judge_grammar(p, data),
+        "raw_struct" => judge_raw(p, data),
         "hash_header" => judge_header(data),
         "oset_ops" => judge_oset(data),
         _ => Ok(()),
